@@ -532,8 +532,24 @@ calc_grep_atom(const char *fmt)
 			res.needle = '\t';
 			goto out;
 		case DT_SPFL_N_DSTD:
+			if (res.pl.off_min || res.pl.off_max) {
+				/* behind other fields, keep their widths */
+				res.needle = '-';
+				res.pl.off_min += -4;
+				res.pl.off_max += -4;
+				res.pl.flags = 0;
+				goto out;
+			}
 			goto dstd;
 		case DT_SPFL_N_TSTD:
+			if (res.pl.off_min || res.pl.off_max) {
+				/* behind other fields, keep their widths */
+				res.needle = ':';
+				res.pl.off_min += -2;
+				res.pl.off_max += -1;
+				res.pl.flags = 0;
+				goto out;
+			}
 			goto tstd;
 		case DT_SPFL_N_YEAR:
 			switch (spec.abbr) {
